@@ -130,7 +130,7 @@ def discharge_ob(ob, budget):
     return v2
 
 
-def match_known(known, cname, ob_id, labels):
+def match_known(known, cname, ob_id, labels, tags=None):
     clause = ob_id[5:] if ob_id.startswith('post.') else ob_id
     for k in known or []:
         if k.get('status', 'open') != 'open':
@@ -139,6 +139,9 @@ def match_known(known, cname, ob_id, labels):
             cf = k.get('case')
             if cf and any(labels.get(a) != b for a, b in cf.items()):
                 continue
+            pt = k.get('path_tag')
+            if pt and not any(str(t[0]) == pt[0] and str(t[1]).startswith(pt[1]) for t in (tags or [])):
+                continue            # the finding is tied to a class of paths; other paths are reported normally
             return k
     return None
 
@@ -208,7 +211,7 @@ def run_task(task):
                        'status': v.status, 'backend': v.backend, 'seconds': round(v.seconds, 3),
                        'tried': v.tried, 'tags': [list(map(str, t)) for t in ob.meta.get('tags', [])][-12:]}
                 if v.status != 'proved':
-                    kf = match_known(known, cname, ob.id, labels)
+                    kf = match_known(known, cname, ob.id, labels, ob.meta.get('tags'))
                     if kf is not None:
                         v, rec = apply_known(kf, ob, v, rec, getattr(pr, 'ctx', None), budget)
                 if v.status == 'refuted':
